@@ -9,7 +9,7 @@ from pyoma2.functions import gen
 from pyoma2.setup import SingleSetup
 
 from .. import modal, tables
-from ..core import J, Sub, mac, raised, sut
+from ..core import J, Sub, mac, raised, rng_of, sut
 
 PROPERTY = "C10"
 RULE = (
@@ -91,13 +91,18 @@ def function_case(draw):
     return {"table": tc, "ordmin": ordmin, "ordmax": ordmax,
             "err_fn": draw(st.sampled_from([0.01, 0.001, 0.05, 0.2])),
             "err_xi": draw(st.sampled_from([0.05, 0.01, 0.3, 1.5])),
-            "err_phi": draw(st.sampled_from([0.03, 0.001, 0.2, 1.1]))}
+            "err_phi": draw(st.sampled_from([0.03, 0.001, 0.2, 1.1, 1e-7, 3e-6])),
+            "phiscale": draw(st.sampled_from([0, 0, 6, 12]))}  # un-normalised mode shapes: every pole's shape times 10^u, |u| <= phiscale
 
 
 def judge_function(case):
     j = J()
     t = tables.build(case["table"])
     Fn, Xi, Phi = t["Fn"], t["Xi"], t["Phi"]
+    if case.get("phiscale"):
+        u = rng_of(case["table"]["seed"] + 77).uniform(-case["phiscale"], case["phiscale"], size=Fn.shape)
+        Phi = Phi * (10.0 ** u)[:, :, None]
+        j.tag("unnormalised-shapes")
     a, b, c = Fn.copy(), Xi.copy(), Phi.copy()
     args = (case["ordmin"], case["ordmax"], 1, case["err_fn"], case["err_xi"], case["err_phi"])
     Lab = sut(gen.SC_apply, a, b, c, *args)
@@ -127,7 +132,9 @@ def class_case(draw):
             "N": draw(st.integers(1500, 3000)), "seed": draw(st.integers(0, 2**32 - 1)), "noise": draw(st.sampled_from([0.02, 0.2])),
             "err_fn": draw(st.sampled_from([0.01, 0.05])), "err_xi": draw(st.sampled_from([0.05, 0.3])), "err_phi": draw(st.sampled_from([0.03, 0.2])),
             "nxseg": draw(st.sampled_from([128, 256])), "unc": draw(st.integers(0, 2)) == 0, "covq": draw(st.sampled_from([0.3, 0.6, 0.9])),
-            "keyorder": draw(st.permutations(["err_fn", "err_xi", "err_phi"]))}
+            "keyorder": draw(st.permutations(["err_fn", "err_xi", "err_phi"])),
+            # in a third of the cases the same object ran before with another order range / other tolerances
+            "first": draw(st.one_of(st.none(), st.none(), st.fixed_dictionaries({"ordmin": st.integers(0, 4), "err_fn": st.sampled_from([0.001, 0.2]), "same_sc": st.booleans()})))}
 
 
 def judge_class(case):
@@ -157,6 +164,18 @@ def judge_class(case):
                 j.tag("calc_unc")
         alg = cls(**kw)
     ss.add_algorithms(alg)
+    if case.get("first"):
+        f = case["first"]
+        fin_ordmin, fin_sc = alg.run_params.ordmin, alg.run_params.sc
+        alg.run_params.ordmin = min(f["ordmin"], fin_ordmin if fin_ordmin > 0 else f["ordmin"], case["ordmax"] - 1)
+        if not f["same_sc"]:
+            alg.run_params.sc = dict(fin_sc, err_fn=f["err_fn"])
+        r0 = sut(ss.run_by_name, "a")
+        alg.run_params.ordmin, alg.run_params.sc = fin_ordmin, fin_sc
+        j.tag("parameters-changed-before-rerun")
+        if raised(r0):
+            j.skip("first-run-raised")
+            return j
     r = sut(ss.run_by_name, "a")
     if not j.check(not raised(r), "class-run-raises", lambda: f"{r!r}"):
         return j
